@@ -347,7 +347,7 @@ fn sweep_case<G: CurveTag>(it: &SweepItem, col: &mut Collector) -> Result<(), Fa
         ops.push(Op::Tamper { gate: it.at, dl: ScalarSpec::Zero, dr: ScalarSpec::Zero, dout: ScalarSpec::Small(5) });
         ops.push(Op::Tamper { gate: it.at + it.dist, dl: ScalarSpec::Zero, dr: ScalarSpec::Zero, dout: ScalarSpec::NegSmall(5) });
     }
-    let prog = Program { curve: G::CURVE, tlabel: 0, pre: vec![], ops, owned: false, cap_p: Cap::Exact, cap_v: Cap::Exact, party_cap: 1, seed: it.at as u64, pc: 0 };
+    let prog = Program { curve: G::CURVE, tlabel: 0, pre: vec![], ops, owned: false, cap_p: Cap::Exact, cap_v: Cap::Exact, party_cap: 1, seed: it.at as u64, pc: 0, gens: 0 };
     let p = run_prover::<G>(&prog, &ProveOpts::default());
     if p.model.violations().len() != 2 {
         return Err(Failure::new("machinery:sweep", "sweep program does not violate exactly two items", json!(format!("{:?}", it))));
